@@ -271,6 +271,35 @@ theorem C20_arm_paths_conform :
     ∀ p ∈ arms.zip armPaths, rankOk p.1.2 = true → ConformsRow p.1.2 (instPath 0 p.2.2) := by
   decide +kernel
 
+/-- generated-table obligation (two extraction paths agree): the rows of the 25 ChannelHandler arms — extracted
+with the closure literal of each `with_channel` call bound to the slot section — only REFINE the node-level rows
+(`channel_request` = union over every Channel method, `channel_base_request`, `setup_channel`), which are validated
+against the lock traces of the real code: no arm row has an edge that the trace-validated rows lack -/
+theorem C20_channel_arm_rows_refine_kind_rows :
+    ((arms.drop 42).take 25).length = 25 ∧
+    ∀ a ∈ (arms.drop 42).take 25, ∀ e ∈ a.2,
+      e ∈ edges .channel_request ∨ e ∈ edges .channel_base_request ∨ e ∈ edges .setup_channel := by
+  decide +kernel
+
+/-- generated-table obligation: no front-end program has a held-while-acquiring edge that is unknown at the node
+level — every edge of every arm / API program is an edge of some node-level kind (whose rows are validated against
+the traces) -/
+theorem C20_arm_edges_known_at_node_level :
+    ∀ a ∈ arms, ∀ e ∈ a.2, ∃ k ∈ Kind.all, e ∈ edges k := by
+  decide +kernel
+
+/-- … and position 42–66 of `arms` are exactly the ChannelHandler arms -/
+theorem C20_channel_arms_positions :
+    ((arms.drop 42).take 25).map (·.1) =
+      ["Channel.Memleak", "Channel.CheckFutureSecret", "Channel.Ecdh", "Channel.GetPerCommitmentPoint",
+       "Channel.GetPerCommitmentPoint2", "Channel.SetupChannel", "Channel.CheckOutpoint", "Channel.LockOutpoint",
+       "Channel.SignRemoteHtlcTx", "Channel.SignLocalHtlcTx2", "Channel.SignRemoteCommitmentTx",
+       "Channel.SignRemoteCommitmentTx2", "Channel.SignDelayedPaymentToUs", "Channel.SignRemoteHtlcToUs",
+       "Channel.SignLocalHtlcTx", "Channel.SignMutualCloseTx", "Channel.SignMutualCloseTx2",
+       "Channel.ValidateCommitmentTx", "Channel.ValidateCommitmentTx2", "Channel.RevokeCommitmentTx",
+       "Channel.SignLocalCommitmentTx2", "Channel.ValidateRevocation", "Channel.SignPenaltyToUs",
+       "Channel.SignChannelAnnouncement", "Channel.Unknown"] := by rfl
+
 /-- non-vacuity: at least 40 front-end programs take locks, at least 25 of them nest two of them -/
 example : (armPaths.filter (fun p => p.2.length ≥ 2)).length ≥ 40 ∧
     (arms.filter (fun a => a.2.length ≥ 1)).length ≥ 25 := by decide +kernel
